@@ -7,7 +7,9 @@ xarray result carries.  Driver level: no theorem is stated about this file; it i
 correspondence check compares with the real back ends, case by case.
 
 Conventions of the harness that this file relies on:
-* all array arguments of one call have the same dtype (a Dataset is sent variable by variable);
+* all array arguments of one call have the same dtype, any of NumPy's 14 numeric dtypes (a Dataset is
+  sent variable by variable); values of float16 reductions, float16 / float32 `pow` and complex data are
+  not compared (see `DType.isFl`);
 * the dimensions of an xarray argument of rank r in a call of maximal rank R are named
   d(R−r) … d(R−1) (right-aligned), so that xarray's broadcasting BY NAME and NumPy's BY POSITION
   mean the same; results are compared after sorting the d-dimensions by number;
@@ -20,7 +22,31 @@ namespace EkwVerif.Backend
 
 inductive DType where
   | f64 | i64 | i32 | u8 | u64 | bool
+  -- second audit: the rest of NumPy's numeric dtypes
+  | i8 | i16 | u16 | u32 | f32 | f16 | c64 | c128
   deriving DecidableEq, Repr
+
+namespace DType
+/-- inexact dtypes: their data travels in `flts` (binary32 / binary16 values are doubles; of a complex
+number only the real part travels).  Only for `f64` is the arithmetic of `Alg.f64` the dtype's own: for the
+others the VALUE this model computes is meaningful only where no arithmetic happens (min, max, stack, concat,
+take of real data) or where one correctly rounded binary64 operation followed by rounding to the narrower
+format is the narrower format's own operation (+, −, ×, ÷; the harness rounds); result dtype, shape, error
+cause and labels are modelled for all of them.  (`f32` / `f16`: see `Alg.f32`, `Alg.f16` in Model/F64.lean.) -/
+def isFl : DType → Bool
+  | .f64 | .f32 | .f16 | .c64 | .c128 => true
+  | _ => false
+
+def isComplex : DType → Bool
+  | .c64 | .c128 => true
+  | _ => false
+
+/-- dtype of `var` / `std` of data of an inexact dtype (real even for complex data) -/
+def realOf : DType → DType
+  | .c64 => .f32
+  | .c128 => .f64
+  | d => d
+end DType
 
 /-- container of an argument: ndarray, DataArray, (a variable of a) Dataset, Python scalar -/
 inductive Cont where
@@ -37,7 +63,7 @@ structure TArr where
   labels : Labels := []
 
 namespace TArr
-def isF (t : TArr) : Bool := t.dt == .f64
+def isF (t : TArr) : Bool := t.dt.isFl
 def rank (t : TArr) : Nat := if t.isF then t.flts.rank else t.ints.rank
 def shape (t : TArr) : List Nat := if t.isF then t.flts.shape else t.ints.shape
 def isPy (t : TArr) : Bool := t.cont == .pyInt || t.cont == .pyFloat
@@ -148,7 +174,11 @@ def algOf : DType → Alg Int
   | .i32 => Alg.wrap 32 true
   | .u8 => Alg.wrap 8 false
   | .u64 => Alg.wrap 64 false
-  | .f64 => Alg.wrap 64 true      -- (not used)
+  | .i8 => Alg.wrap 8 true
+  | .i16 => Alg.wrap 16 true
+  | .u16 => Alg.wrap 16 false
+  | .u32 => Alg.wrap 32 false
+  | _ => Alg.wrap 64 true      -- (inexact dtypes: not used)
 
 def inRange (dt : DType) (v : Int) : Bool :=
   match dt with
@@ -157,13 +187,29 @@ def inRange (dt : DType) (v : Int) : Bool :=
   | .i32 => decide (-(2:Int)^31 ≤ v) && decide (v < (2:Int)^31)
   | .u8 => decide (0 ≤ v) && decide (v < 256)
   | .u64 => decide (0 ≤ v) && decide (v < (2:Int)^64)
-  | .f64 => true
+  | .i8 => decide (-(128:Int) ≤ v) && decide (v < 128)
+  | .i16 => decide (-(2:Int)^15 ≤ v) && decide (v < (2:Int)^15)
+  | .u16 => decide (0 ≤ v) && decide (v < (2:Int)^16)
+  | .u32 => decide (0 ≤ v) && decide (v < (2:Int)^32)
+  | _ => true
+
+def isFloatOpB : Op → Bool
+  | .mean | .std | .var | .divide => true
+  | _ => false
 
 /-- dtype in which NumPy accumulates `sum` / `prod` of integers -/
 def accDT : DType → DType
-  | .u8 | .u64 => .u64
-  | .f64 => .f64
-  | _ => .i64
+  | .u8 | .u16 | .u32 | .u64 => .u64
+  | .bool | .i8 | .i16 | .i32 | .i64 => .i64
+  | d => d                       -- inexact dtypes accumulate in themselves (float32 sums are float32)
+
+/-- result dtype of a call whose array arguments have dtype `dt` (`anyPyF`: a Python float is among the
+operands of a binary operation; under NumPy 2 promotion it is "weak": it turns integers into float64 and
+leaves every inexact dtype as it is) -/
+def resDT (op : Op) (dt : DType) (anyPyF : Bool) : DType :=
+  if dt.isFl then (if op == .var || op == .std then dt.realOf else dt)
+  else if isFloatOpB op || anyPyF then .f64
+  else if op == .sum || op == .prod then accDT dt else dt
 
 def isFloatOp : Op → Bool
   | .mean | .std | .var | .divide => true
@@ -294,12 +340,12 @@ def errorOf (c : Call) (args : List TArr) : Option String :=
        -- dtype rules (NumPy: type resolution and the conversion of a Python scalar come before broadcasting, the
        -- negative-power check inside the loop after it; xarray aligns and broadcasts before it calls NumPy)
        let anyPyF := args.any (·.cont == .pyFloat)
-       let pyOver := args.any fun t => t.cont == .pyInt && dt != .f64 && !isFloatOp c.op
+       let pyOver := args.any fun t => t.cont == .pyInt && !dt.isFl && !isFloatOp c.op
                         && !anyPyF && !inRange dt (t.ints.get (fun _ => 0))
        let typeErr : Option String :=
          if dt == .bool && c.op == .subtract && !anyPyF then some "type"
          else if pyOver then some "overflow" else none
-       let negExp := c.op == .pow && dt != .f64 && !anyPyF && y.dt != .f64 && y.ints.elems.any (· < 0)
+       let negExp := c.op == .pow && !dt.isFl && !anyPyF && !y.dt.isFl && y.ints.elems.any (· < 0)
        let shapeErr : Option String :=
          if anyXr then
            (if !alignOk R args then some "align"
@@ -374,7 +420,11 @@ def run (c : Call) (args : List TArr) : Except String Result :=
       | .take, [x] => selToIsel c x
       | _, _ => c
     let labels := resultLabels c args
-    let asF (t : TArr) : Arr F64 := if t.isF then t.flts else Arr.mapVals F64.ofInt t.ints
+    -- NumPy 2 promotion: a Python scalar is "weak" -- next to a float32 / float16 array it is converted to that dtype first
+    let toDt : F64 → F64 := if !dt.isFl then id else match dt with | .f32 => F64.to32 | .f16 => F64.to16 | _ => id
+    let asF (t : TArr) : Arr F64 :=
+      if t.isPy then Arr.mapVals toDt (if t.isF then t.flts else Arr.mapVals F64.ofInt t.ints)
+      else if t.isF then t.flts else Arr.mapVals F64.ofInt t.ints
     -- xarray: an EMPTY list of dimensions is "nothing to do": the array comes back as it is, dtype included
     -- (NumPy's axis=() still converts: mean -> float64, sum of int32 -> int64; known finding)
     let xrNoop := match c.kw.axis, args with
@@ -384,10 +434,12 @@ def run (c : Call) (args : List TArr) : Except String Result :=
       match args with
       | [x] => .ok { dt := x.dt, ints := x.ints, flts := x.flts, labels := labels }
       | _ => .error "arity"
-    else if dt == .f64 || isFloatOp c.op || anyPyF then
-      .ok { dt := .f64, flts := compute Alg.f64 c' (prepArgs c' be (args.map asF)), labels := labels }
+    else if dt.isFl || isFloatOp c.op || anyPyF then
+      -- the arithmetic of the dtype the computation runs in (complex data is opaque: only its real part travels)
+      let A : Alg F64 := if !dt.isFl then Alg.f64 else match dt with | .f32 => Alg.f32 | .f16 => Alg.f16 | _ => Alg.f64
+      .ok { dt := resDT c.op dt anyPyF, flts := compute A c' (prepArgs c' be (args.map asF)), labels := labels }
     else
-      let cdt := if c.op == .sum || c.op == .prod then accDT dt else dt
+      let cdt := resDT c.op dt anyPyF
       .ok { dt := cdt, ints := compute (algOf cdt) c' (prepArgs c' be (args.map (·.ints))), labels := labels }
 
 def Result.toTArr (r : Result) (cont : Cont) : TArr :=
